@@ -19,8 +19,16 @@ WConfigs == {[ests |-> e, width |-> wd, lo |-> DataLo, hi |-> DataHi, fn |-> f[1
 
 WCase(c) == [cfg |-> c, wins |-> WindowsOf(c)]
 
-ASSUME \A c \in WConfigs : ExactCfg(c)
+(* hardening round: data of one to five points (every window holds too few points), and the *)
+(* variants of a configuration (element types, memory layout) the driver attaches in turn   *)
+TinyConfigs == {[ests |-> e, width |-> wd, lo |-> 0, hi |-> h, fn |-> f[1], fd |-> f[2]] :
+                  e \in SortedSeqs({-12, 0, 6, 12, 24}, 2), wd \in {2, 12, 50}, f \in {<<1, 3>>, <<1, 2>>},
+                  h \in {0, 12}}
+
+ASSUME \A c \in WConfigs \cup TinyConfigs : ExactCfg(c)
 ASSUME ndJsonSerialize(IOEnv.WIN_FILE, SetToSeq({WCase(c) : c \in WConfigs}))
+ASSUME ndJsonSerialize(IOEnv.TINY_FILE, SetToSeq({WCase(c) : c \in TinyConfigs}))
+ASSUME ndJsonSerialize(IOEnv.VARIANT_FILE, SetToSeq(WindowVariants))
 
 (* loop: parameter counts of the scripted models (peak models with 3 and 6 parameters,      *)
 (* backgrounds with 2 and 3): the combinations have 5, 6, 8, 9 parameters, so that with 7   *)
@@ -40,7 +48,8 @@ LCase(sh, n, s) ==
 LCases == UNION {{LCase(sh, n, s) : n \in NptsVals, s \in [1..Len(NpsOf(sh)) -> Verdicts]} : sh \in Shapes}
 ASSUME \A c \in LCases : \A k \in 1..Len(c.script) : c.npts # NpsOf(<<c.pk, c.bk>>)[k]
 ASSUME ndJsonSerialize(IOEnv.LOOP_FILE, SetToSeq(LCases))
-ASSUME PrintT(<<"GEN", Cardinality(WConfigs), Cardinality(LCases)>>)
+ASSUME PrintT(<<"GEN", Cardinality(WConfigs), Cardinality(LCases), Cardinality(TinyConfigs),
+                 Cardinality(WindowVariants)>>)
 
 VARIABLE x
 Init == x = 0
